@@ -10,12 +10,15 @@ pub mod c04;
 pub mod c05;
 pub mod c06;
 pub mod c07;
+pub mod c08;
+pub mod c09;
 pub mod c10;
 pub mod c11;
 pub mod c12;
 pub mod c14;
 pub mod c15;
 pub mod c16;
+pub mod c17;
 
 pub fn threads() -> usize {
     std::env::var("VERIF_THREADS").ok().and_then(|s| s.parse().ok()).unwrap_or(16)
@@ -37,12 +40,15 @@ pub fn run(id: &str, tier: Tier, seed: u64, known: &Known) -> PropRun {
         "C05" => c05::run(tier, seed, known),
         "C06" => c06::run(tier, seed, known),
         "C07" => c07::run(tier, seed, known),
+        "C08" => c08::run(tier, seed, known),
+        "C09" => c09::run(tier, seed, known),
         "C10" => c10::run(tier, seed, known),
         "C11" => c11::run(tier, seed, known),
         "C12" => c12::run(tier, seed, known),
         "C14" => c14::run(tier, seed, known),
         "C15" => c15::run(tier, seed, known),
         "C16" => c16::run(tier, seed, known),
+        "C17" => c17::run(tier, seed, known),
         _ => {
             let mut r = PropRun::new("exploration", "");
             r.inconclusive = Some(format!("unknown property {}", id));
@@ -60,12 +66,15 @@ pub fn replay(id: &str, part: &str, bytes: &[u8], case: &Value) -> Verdict {
         "C05" => c05::replay(part, bytes, case, &mut st),
         "C06" => c06::replay(part, bytes, case, &mut st),
         "C07" => c07::replay(part, bytes, case, &mut st),
+        "C08" => c08::replay(part, bytes, case, &mut st),
+        "C09" => c09::replay(part, bytes, case, &mut st),
         "C10" => c10::replay(part, bytes, case, &mut st),
         "C11" => c11::replay(part, bytes, case, &mut st),
         "C12" => c12::replay(part, bytes, case, &mut st),
         "C14" => c14::replay(part, bytes, case, &mut st),
         "C15" => c15::replay(part, bytes, case, &mut st),
         "C16" => c16::replay(part, bytes, case, &mut st),
+        "C17" => c17::replay(part, bytes, case, &mut st),
         _ => Err(Failure::new("unknown-property", json!({"id": id}))),
     }
 }
